@@ -310,6 +310,19 @@ func init() {
 		return v
 	})
 	reg([]string{"math/rand.Uint32"}, nil, noop)
+	// rand.Shuffle(n, swap): "swap swaps the elements with indexes i and j" -- assumed contract of math/rand: swap is
+	// called some number of times, each time with 0 <= i < n and 0 <= j < n, and nothing else is touched. The caller's
+	// `iter-invariant` clauses at the site are proved to hold before, to be preserved by one arbitrary call of the
+	// closure from any state satisfying them, and are what is known afterwards (repeated-callback rule).
+	reg([]string{"math/rand.Shuffle"}, nil, func(e *Eng, fr *Frame, c *ssa.CallCommon, args []*Val, st *State, g string, pos token.Pos) *Val {
+		e.oblige("panic", "rand.Shuffle(n<0)", e.safety(fr), pos, g, sx(">=", args[0].T, "0"))
+		if args[1].Clo == nil {
+			e.errf("rand.Shuffle: the swap function is not a closure of the calling function")
+			return unit
+		}
+		e.repeatCallback(fr, c, args[1], func(i int, a string) string { return and(sx("<=", "0", a), sx("<", a, args[0].T)) }, st, g, pos)
+		return unit
+	})
 
 	// ---- pure library functions ----
 	for _, n := range []string{"strings.HasPrefix", "strings.HasSuffix", "strings.Contains", "strings.ToLower", "strings.TrimSpace", "strings.LastIndex", "strings.Index",
